@@ -279,7 +279,9 @@ static void s_run_huge(const char *op, int which, size_t n, size_t outlen, size_
     printf("P %s same=%d\n", op, rcs[0] == rcs[1] && !strcmp(errs[0], errs[1]) && lens[0] == lens[1]);
 }
 
-/* ---- UTF-8 ---- */
+/* ---- UTF-8 ----
+ * Every UTF-8 op runs each build in two modes: a decoder with a recording on_codepoint callback, and a
+ * decoder created without callback (options == NULL, or options->on_codepoint == NULL). */
 #define MAXCP 65536
 struct cplog {
     uint32_t cp[MAXCP];
@@ -292,27 +294,153 @@ static int s_on_cp(uint32_t cp, void *ud) {
     l->cp[l->n++] = cp;
     return AWS_OP_SUCCESS;
 }
-static void s_put_u8(const char *op, const char *name, const char *err, const struct cplog *l) {
-    printf("P %s %s rc=%s cps=", op, name, err);
+static void s_put_cps(const struct cplog *l) {
     if (l->n == 0) {
         printf("-");
     }
     for (size_t i = 0; i < l->n; ++i) {
         printf(i ? ",%x" : "%x", l->cp[i]);
     }
+}
+static void s_put_u8(const char *op, const char *name, const char *err, const struct cplog *l) {
+    printf("P %s %s rc=%s cps=", op, name, err);
+    s_put_cps(l);
     printf("\n");
+}
+static void s_put_u8_nocb(const char *op, const char *name, const char *err) {
+    printf("P %s %s nocb=1 rc=%s\n", op, name, err);
 }
 static bool s_log_same(void) {
     return s_log[0].n == s_log[1].n && !memcmp(s_log[0].cp, s_log[1].cp, s_log[0].n * sizeof(uint32_t));
 }
 
-static struct aws_utf8_decoder *s_dec[2];
+/* exact-size heap copy (ASan red zone right behind the chunk) */
+static uint8_t *s_dup(const uint8_t *p, size_t n) {
+    uint8_t *q = malloc(n ? n : 1);
+    if (n) {
+        memcpy(q, p, n);
+    }
+    return q;
+}
+
+/* new decoder, feed the chunks (stop at the first error), finalize, destroy.  nocb_kind: 0 = callback installed,
+ * 1 = options == NULL, 2 = options given but on_codepoint == NULL */
+static void s_run_chunks(
+    const struct build *B,
+    int nocb_kind,
+    struct cplog *log,
+    const uint8_t *x,
+    const size_t *cut, /* chunk k is x[cut[k] .. cut[k+1]) */
+    size_t nchunks,
+    char *err,
+    size_t errsz) {
+    struct aws_utf8_decoder_options opt = {nocb_kind == 0 ? s_on_cp : NULL, log};
+    log->n = 0;
+    struct aws_utf8_decoder *d = B->u8_new(hc_allocator(), nocb_kind == 1 ? NULL : &opt);
+    int rc = AWS_OP_SUCCESS;
+    aws_reset_error();
+    for (size_t k = 0; k < nchunks && rc == AWS_OP_SUCCESS; ++k) {
+        size_t len = cut[k + 1] - cut[k];
+        uint8_t *c = s_dup(x + cut[k], len);
+        rc = B->u8_update(d, aws_byte_cursor_from_array(c, len));
+        free(c);
+    }
+    if (rc == AWS_OP_SUCCESS) {
+        rc = B->u8_finalize(d);
+    }
+    snprintf(err, errsz, "%s", hc_err(rc));
+    B->u8_destroy(d);
+}
+
+static void s_one_shot(const struct build *B, int nocb_kind, struct cplog *log, const uint8_t *x, size_t len, char *err, size_t errsz) {
+    struct aws_utf8_decoder_options opt = {nocb_kind == 0 ? s_on_cp : NULL, log};
+    uint8_t *c = s_dup(x, len);
+    log->n = 0;
+    aws_reset_error();
+    int rc = B->decode_utf8(aws_byte_cursor_from_array(c, len), nocb_kind == 1 ? NULL : &opt);
+    snprintf(err, errsz, "%s", hc_err(rc));
+    free(c);
+}
+
+/* all chunkings of x (every composition, plus one run with an empty chunk around every byte), both modes */
+static void s_u8all(const uint8_t *x, size_t len) {
+    static struct cplog ref[2], got;
+    char err1[2][64], errn[2][64];
+    int dep[2][2] = {{0, 0}, {0, 0}};
+    size_t nmask = len ? ((size_t)1 << (len - 1)) : 1;
+    for (int b = 0; b < 2; ++b) {
+        const struct build *B = &s_builds[b];
+        char mon[1024] = "";
+        s_one_shot(B, 0, &ref[b], x, len, err1[b], sizeof(err1[b]));
+        s_one_shot(B, 2, &got, x, len, errn[b], sizeof(errn[b]));
+        for (size_t mask = 0; mask <= nmask; ++mask) {
+            size_t cut[40], n = 0;
+            cut[n++] = 0;
+            if (mask == nmask) { /* extra run: empty chunks interleaved with single bytes */
+                for (size_t i = 0; i < len; ++i) {
+                    cut[n++] = i;
+                    cut[n++] = i + 1;
+                }
+                cut[n++] = len;
+            } else {
+                for (size_t i = 0; i + 1 < len; ++i) {
+                    if (mask >> i & 1) {
+                        cut[n++] = i + 1;
+                    }
+                }
+                cut[n++] = len;
+            }
+            for (int mode = 0; mode < 2; ++mode) {
+                char err[64];
+                int kind = mode == 0 ? 0 : 1 + (int)(mask & 1);
+                s_run_chunks(B, kind, &got, x, cut, n - 1, err, sizeof(err));
+                bool differs = mode == 0 ? (strcmp(err, err1[b]) || got.n != ref[b].n ||
+                                            memcmp(got.cp, ref[b].cp, got.n * sizeof(uint32_t)))
+                                         : (strcmp(err, errn[b]) || strcmp(err, err1[b]) || got.n != 0);
+                if (differs) {
+                    dep[b][mode] = 1;
+                    if (!mon[0]) {
+                        size_t o = (size_t)snprintf(mon, sizeof(mon), "P u8all %s MONITOR split=", B->name);
+                        for (size_t k = 0; k + 1 < n && o + 8 < sizeof(mon); ++k) {
+                            if (k) {
+                                mon[o++] = '|';
+                            }
+                            if (cut[k] == cut[k + 1]) {
+                                mon[o++] = '-';
+                            }
+                            for (size_t i = cut[k]; i < cut[k + 1] && o + 8 < sizeof(mon); ++i) {
+                                o += (size_t)snprintf(mon + o, sizeof(mon) - o, "%02x", x[i]);
+                            }
+                        }
+                        snprintf(mon + o, sizeof(mon) - o, " nocb=%d rc=%s reported=%zu but in one piece rc=%s reported=%zu", mode,
+                                 err, got.n, mode == 0 ? err1[b] : errn[b], mode == 0 ? ref[b].n : (size_t)0);
+                    }
+                }
+            }
+        }
+        printf("P u8all %s rc=%s cps=", B->name, err1[b]);
+        s_put_cps(&ref[b]);
+        printf(" chunkings=%zu chunkdep=%d\n", nmask, dep[b][0]);
+        printf("P u8all %s nocb=1 rc=%s chunkdep=%d\n", B->name, errn[b], dep[b][1]);
+        if (mon[0]) {
+            printf("%s\n", mon);
+        }
+    }
+    bool same = !strcmp(err1[0], err1[1]) && !strcmp(errn[0], errn[1]) && ref[0].n == ref[1].n &&
+                !memcmp(ref[0].cp, ref[1].cp, ref[0].n * sizeof(uint32_t)) && dep[0][0] == dep[1][0] && dep[0][1] == dep[1][1];
+    printf("P u8all same=%d\n", same);
+}
+
+/* persistent decoders: [build][0 = with callback, 1 = without] */
+static struct aws_utf8_decoder *s_dec[2][2];
 
 static void s_reset(void) {
     for (int b = 0; b < 2; ++b) {
-        if (s_dec[b]) {
-            s_builds[b].u8_destroy(s_dec[b]);
-            s_dec[b] = NULL;
+        for (int m = 0; m < 2; ++m) {
+            if (s_dec[b][m]) {
+                s_builds[b].u8_destroy(s_dec[b][m]);
+                s_dec[b][m] = NULL;
+            }
         }
     }
 }
@@ -334,8 +462,6 @@ int main(void) {
                               (which = 4, !strcmp(op, "hexencdyn")))) {
             size_t inlen;
             uint8_t *in = hc_hex_decode(t[1], &inlen);
-            if (inlen == 0) { /* exact-size view: zero-length input is a 1-byte block never to be read */
-            }
             size_t outlen = hc_parse_size(t[2]), cap = hc_parse_size(t[3]);
             if (cap > (1u << 24) || (which == 4 && outlen > cap)) {
                 printf("bad-op\n");
@@ -355,74 +481,93 @@ int main(void) {
                               (which = 2, !strcmp(op, "hexdechuge")) || (which = 3, !strcmp(op, "hexdynhuge")))) {
             s_run_huge(op, which, hc_parse_size(t[1]), hc_parse_size(t[2]), hc_parse_size(t[3]));
         } else if (!strcmp(op, "u8")) {
-            char errs[2][64];
-            for (int b = 0; b < 2; ++b) {
-                const struct build *B = &s_builds[b];
-                struct aws_utf8_decoder_options opt = {s_on_cp, &s_log[b]};
-                s_log[b].n = 0;
-                struct aws_utf8_decoder *d = B->u8_new(hc_allocator(), &opt);
-                int rc = AWS_OP_SUCCESS;
-                aws_reset_error();
-                for (int k = 1; k < n && rc == AWS_OP_SUCCESS; ++k) {
-                    size_t len;
-                    uint8_t *c = hc_hex_decode(t[k], &len);
-                    rc = B->u8_update(d, aws_byte_cursor_from_array(c, len));
-                    free(c);
-                }
-                if (rc == AWS_OP_SUCCESS) {
-                    rc = B->u8_finalize(d);
-                }
-                snprintf(errs[b], sizeof(errs[b]), "%s", hc_err(rc));
-                B->u8_destroy(d);
-                s_put_u8(op, B->name, errs[b], &s_log[b]);
+            /* concatenate the chunks, remember the cuts */
+            char errs[2][64], errn[2][64];
+            static uint8_t text[HC_MAX_LINE / 2];
+            static size_t cut[HC_MAX_TOKS + 1];
+            size_t total = 0;
+            cut[0] = 0;
+            for (int k = 1; k < n; ++k) {
+                size_t len;
+                uint8_t *c = hc_hex_decode(t[k], &len);
+                memcpy(text + total, c, len);
+                total += len;
+                cut[k] = total;
+                free(c);
             }
-            printf("P %s same=%d\n", op, !strcmp(errs[0], errs[1]) && s_log_same());
+            static struct cplog dummy;
+            for (int b = 0; b < 2; ++b) {
+                s_run_chunks(&s_builds[b], 0, &s_log[b], text, cut, (size_t)(n - 1), errs[b], sizeof(errs[b]));
+                s_put_u8(op, s_builds[b].name, errs[b], &s_log[b]);
+                s_run_chunks(&s_builds[b], 1 + (n & 1), &dummy, text, cut, (size_t)(n - 1), errn[b], sizeof(errn[b]));
+                s_put_u8_nocb(op, s_builds[b].name, errn[b]);
+            }
+            printf("P %s same=%d\n", op, !strcmp(errs[0], errs[1]) && !strcmp(errn[0], errn[1]) && s_log_same());
         } else if (n == 2 && !strcmp(op, "u8one")) {
-            char errs[2][64];
+            char errs[2][64], errn[2][64];
+            static struct cplog dummy;
             size_t len;
             uint8_t *c = hc_hex_decode(t[1], &len);
             for (int b = 0; b < 2; ++b) {
-                struct aws_utf8_decoder_options opt = {s_on_cp, &s_log[b]};
-                s_log[b].n = 0;
-                aws_reset_error();
-                int rc = s_builds[b].decode_utf8(aws_byte_cursor_from_array(c, len), &opt);
-                snprintf(errs[b], sizeof(errs[b]), "%s", hc_err(rc));
+                s_one_shot(&s_builds[b], 0, &s_log[b], c, len, errs[b], sizeof(errs[b]));
                 s_put_u8(op, s_builds[b].name, errs[b], &s_log[b]);
+                s_one_shot(&s_builds[b], 1 + (int)(len & 1), &dummy, c, len, errn[b], sizeof(errn[b]));
+                s_put_u8_nocb(op, s_builds[b].name, errn[b]);
             }
             free(c);
-            printf("P %s same=%d\n", op, !strcmp(errs[0], errs[1]) && s_log_same());
+            printf("P %s same=%d\n", op, !strcmp(errs[0], errs[1]) && !strcmp(errn[0], errn[1]) && s_log_same());
+        } else if (n == 2 && !strcmp(op, "u8all")) {
+            size_t len;
+            uint8_t *c = hc_hex_decode(t[1], &len);
+            if (len > 16) {
+                printf("bad-op\n");
+            } else {
+                s_u8all(c, len);
+            }
+            free(c);
         } else if (n == 1 && !strcmp(op, "u8new")) {
             s_reset();
             for (int b = 0; b < 2; ++b) {
                 struct aws_utf8_decoder_options opt = {s_on_cp, &s_log[b]};
-                s_dec[b] = s_builds[b].u8_new(hc_allocator(), &opt);
+                struct aws_utf8_decoder_options optn = {NULL, NULL};
+                s_dec[b][0] = s_builds[b].u8_new(hc_allocator(), &opt);
+                s_dec[b][1] = s_builds[b].u8_new(hc_allocator(), b == 0 ? &optn : NULL);
             }
-        } else if (n == 2 && !strcmp(op, "u8upd") && s_dec[0]) {
-            char errs[2][64];
+        } else if (n == 2 && !strcmp(op, "u8upd") && s_dec[0][0]) {
+            char errs[2][64], errn[2][64];
             size_t len;
             uint8_t *c = hc_hex_decode(t[1], &len);
             for (int b = 0; b < 2; ++b) {
                 s_log[b].n = 0;
                 aws_reset_error();
-                int rc = s_builds[b].u8_update(s_dec[b], aws_byte_cursor_from_array(c, len));
+                int rc = s_builds[b].u8_update(s_dec[b][0], aws_byte_cursor_from_array(c, len));
                 snprintf(errs[b], sizeof(errs[b]), "%s", hc_err(rc));
                 s_put_u8(op, s_builds[b].name, errs[b], &s_log[b]);
+                aws_reset_error();
+                rc = s_builds[b].u8_update(s_dec[b][1], aws_byte_cursor_from_array(c, len));
+                snprintf(errn[b], sizeof(errn[b]), "%s", hc_err(rc));
+                s_put_u8_nocb(op, s_builds[b].name, errn[b]);
             }
             free(c);
-            printf("P %s same=%d\n", op, !strcmp(errs[0], errs[1]) && s_log_same());
-        } else if (n == 1 && !strcmp(op, "u8fin") && s_dec[0]) {
-            char errs[2][64];
+            printf("P %s same=%d\n", op, !strcmp(errs[0], errs[1]) && !strcmp(errn[0], errn[1]) && s_log_same());
+        } else if (n == 1 && !strcmp(op, "u8fin") && s_dec[0][0]) {
+            char errs[2][64], errn[2][64];
             for (int b = 0; b < 2; ++b) {
                 s_log[b].n = 0;
                 aws_reset_error();
-                int rc = s_builds[b].u8_finalize(s_dec[b]);
+                int rc = s_builds[b].u8_finalize(s_dec[b][0]);
                 snprintf(errs[b], sizeof(errs[b]), "%s", hc_err(rc));
                 s_put_u8(op, s_builds[b].name, errs[b], &s_log[b]);
+                aws_reset_error();
+                rc = s_builds[b].u8_finalize(s_dec[b][1]);
+                snprintf(errn[b], sizeof(errn[b]), "%s", hc_err(rc));
+                s_put_u8_nocb(op, s_builds[b].name, errn[b]);
             }
-            printf("P %s same=%d\n", op, !strcmp(errs[0], errs[1]));
-        } else if (n == 1 && !strcmp(op, "u8reset") && s_dec[0]) {
+            printf("P %s same=%d\n", op, !strcmp(errs[0], errs[1]) && !strcmp(errn[0], errn[1]));
+        } else if (n == 1 && !strcmp(op, "u8reset") && s_dec[0][0]) {
             for (int b = 0; b < 2; ++b) {
-                s_builds[b].u8_reset(s_dec[b]);
+                s_builds[b].u8_reset(s_dec[b][0]);
+                s_builds[b].u8_reset(s_dec[b][1]);
             }
         } else {
             printf("bad-op\n");
